@@ -231,14 +231,12 @@ def predictTable (st : St) (ws : List String) : String :=
           | none => "M cands n=0"
           | some t =>
             let n := w.length
-            let pre := (List.range (n - 1)).reverse.flatMap fun k0 =>
-              let k := k0 + 1
-              -- `max_homographs` (1): the table lookup for a prefix is skipped when the user dictionary already
-              -- filled that word-graph edge (table_translator.cc:645), so its table entries are not collected
-              let u := userEx (w.take k)
-              (if u.isEmpty then sysEx (w.take k) else u.map UCand.toCand).map
-                fun c => ({ text := c.text, cls := clsOf c, end_ := start + k } : PCand)
-            showCands (dedupP ({ text := t, cls := "t", end_ := stop } :: pre) [])
+            let ks := (List.range (n - 1)).reverse.map (· + 1)
+            let cs := tableSentenceList (some t) (ks.map fun k => (userEx (w.take k), sysEx (w.take k)))
+            -- end position: the sentence covers the segment, a prefix phrase its prefix
+            let ends : List Nat := stop :: ks.flatMap fun k =>
+              List.replicate (if (userEx (w.take k)).isEmpty then (sysEx (w.take k)).length else (userEx (w.take k)).length) (start + k)
+            showCands (dedupP ((cs.zip ends).map fun (c, e) => ({ text := c.text, cls := clsOf c, end_ := e } : PCand)) [])
       | _, _ => "bad-op"
     | _, _ => "bad-op"
   | _, _ => "M cands n=0"
